@@ -7,7 +7,7 @@ from props.common import *
 from props.env import install_env
 
 
-def _run_driver(ctx, which):
+def _run_driver(ctx, which, cfg_workers=2):
     eng = ctx.engine("libxcp", loop_bound=4)
     install_env(ctx, eng)
     S = eng.add_summary
@@ -80,8 +80,8 @@ def _run_driver(ctx, which):
     fn = eng.funcs[cands[0]]
     st = State()
     cfg, cv = mk_config(ctx, eng, st)
-    nworkers = 2
-    st.pc.append(cv["workers"].t == nworkers)
+    nworkers = 2          # what num_cpus::get() answers in this model; `workers: 0` in the configuration means "one per CPU"
+    st.pc.append(cv["workers"].t == cfg_workers)
     drv = OpaqueV(which + "::Driver", "driver")
     drv.attrs[("f", None, 0)] = mk_arc(cfg, "Arc<config::Config>", "cfg_arc", rc=1)
     sources = OpaqueV("Vec<PathBuf>", "sources", {"items": []})
@@ -93,8 +93,8 @@ def _run_driver(ctx, which):
 
 
 def lemma_driver_copy(ctx):
-    for which in ("parfile", "parblock"):
-        eng, paths, nworkers = _run_driver(ctx, which)
+    for which, cfgw in (("parfile", 2), ("parblock", 2), ("parfile", 0), ("parblock", 0)):
+        eng, paths, nworkers = _run_driver(ctx, which, cfgw)
         full = 0
         for p in paths:
             tn = trace_names(p)
@@ -116,8 +116,12 @@ def lemma_driver_copy(ctx):
             else:
                 ctx.passed("C07: the walker owns the only sender of the work queue (dropping it closes the queue)")
             want = nworkers + 1 if which == "parfile" else 2
-            if len(sp) != want:
+            if len(sp) != want and cfgw:
                 ctx.fail("C06: %s starts the walker and %s" % (which, "`workers` copy workers" if which == "parfile" else "one dispatcher"), "%d threads" % len(sp))
+            if not cfgw:
+                (ctx.passed if len(sp) == want else ctx.fail)(
+                    "C01/C02/C04/C06/C12: with `workers: 0` (one per CPU) the driver still starts its consumers -- the walker plus one copy worker per CPU, or the dispatcher "
+                    "(a queue nobody reads ends in Ok(()) with nothing copied)", "%s: %d threads for %d CPUs" % (which, len(sp), nworkers))
             # C12/C07: every thread gets its own clone of the updater; copy() keeps none after returning
             good = all(any("StatusUpdater" in k for k in e.args[2]) for e in sp)
             (ctx.passed if good else ctx.fail)("C12: every spawned thread reports through a clone of the client's updater", str([e.args[2] for e in sp]))
@@ -140,4 +144,46 @@ def lemma_driver_copy(ctx):
                 full += 1
                 ctx.passed("C06/C07: copy() returns Ok only after joining every thread it started (walker, workers/dispatcher)")
         (ctx.passed if full else ctx.fail)("witness: %s copy() success path" % which, "")
-    ctx.bounds = "both drivers, workers = 2, every join outcome {ok, thread error, panic}"
+    ctx.bounds = "both drivers, workers = 2 and workers = 0 (with 2 CPUs), every join outcome {ok, thread error, panic}"
+
+
+def lemma_load_driver(ctx):
+    """load_driver: the library's own entry point refuses a configuration whose block size is zero (the copy loops of both drivers
+    would spin or divide by zero); main's option check does not protect library clients."""
+    eng = ctx.engine("libxcp", loop_bound=2)
+    install_env(ctx, eng)
+    S = eng.add_summary
+    S(r"^<str as ToString>::to_string$|^<String as From<&str>>::from$|^str::<impl str>::to_owned$", lambda e, st, c, a, d: Outcome(OpaqueV("String", None)), front=True)
+
+    def s_new(eng, st, callee, args, dty):
+        which = "parfile" if "parfile" in callee else "parblock"
+        return [Outcome(ok(OpaqueV(which + "::Driver", which)), events=[Event("driver_new", [which], "ok")])]
+    S(r"^(drivers::)?(parfile|parblock)::Driver::new$|^(parfile|parblock)::<impl .*>::new$", s_new, front=True)
+    S(r"^Box::<.*>::new$", lambda e, st, c, a, d: Outcome(OpaqueV("Box<dyn CopyDriver>", getattr(a[0], "name", "?"))), front=True)
+    fn = fn_named(eng.funcs, "load_driver")
+    seen = set()
+    for variant in (0, 1):
+        st = State()
+        cfg, cv = mk_config(ctx, eng, st)
+        arc = mk_arc(cfg, "Arc<config::Config>", "cfg_arc", rc=1)
+        drv = AggV("Drivers", variant, [], ["ParFile", "ParBlock"][variant])
+        paths = eng.run(fn.name, [drv, RefV(Cell(arc))], st)
+        ctx.paths += len(paths)
+        for p in paths:
+            if p.status != "return":
+                ctx.fail("load_driver: path ends in return", "%s %s" % (p.status, p.msg))
+                continue
+            made = [e for e in p.trace if e.name == "driver_new"]
+            if is_ok(p.ret):
+                seen.add("ok")
+                ctx.lemma(eng, "C07/C16: load_driver hands out a driver only for a block size >= 1 (with 0 the parfile copy loop never advances and the block "
+                               "partition divides by zero -- library clients do not pass through main's option check)", p.pc, cv["block_size"].t >= 1,
+                          key="load_driver:block-size-zero")
+                (ctx.passed if len(made) == 1 and made[0].args[0] == ("parfile", "parblock")[variant] else ctx.fail)(
+                    "C06/C16: load_driver constructs the driver that was asked for", str(trace_names(p)))
+            else:
+                seen.add("err")
+                ctx.lemma(eng, "C16: load_driver refuses only what cannot be honoured (a zero block size)", p.pc, cv["block_size"].t == 0)
+    for k in ("ok", "err"):
+        (ctx.passed if k in seen else ctx.fail)("witness: load_driver %s" % k, str(sorted(seen)))
+    ctx.bounds = "loop-free; both drivers, every configuration"
